@@ -462,7 +462,36 @@ def rule_guard(ctx):
             res.sample({"entry": key, "first": "validate_deserialization()?"})
         else:
             res.violate("%s : tokenizer-guard-not-checked" % key, "the restored vectoriser's tokenizer can be reached without `validate_deserialization()?` first: a deserialised model with a custom tokenizer silently falls back to the regex tokenizer", fn_loc(f))
-    return res.finish(3)
+    # the guard is only worth something if it is raised whenever a function tokenizer is configured
+    n_set = 0
+    for f in fns:
+        if f["d"]["name"] in ("force_tokenizer_function_redefinition", "force_tokenizer_redefinition"):
+            continue   # restoration entry of an already-fitted (possibly restored) vectoriser: the guard is whatever was serialised
+        if not any(x.get("k") == "Assign" and strip(x["l"]).get("k") == "Field" and strip(x["l"])["name"] == "tokenizer_function" for x in walk(f["body"])):
+            continue
+        tr = Tracer(f).run()
+        evs = [e for e in tr.events if e.kind == "assign" and e.lhs_node.get("k") == "Field"]
+        for e in evs:
+            if e.lhs_node["name"] != "tokenizer_function":
+                continue
+            v = as_term(e.val)
+            if v is None or not v.is_call("Some"):
+                continue
+            n_set += 1
+            key = fn_key(f)
+            res.instance("%s : tokenizer function installed" % key)
+            eg = set((g[0], g[1]) for g in e.guards)
+            same_path = [x for x in evs if x.lhs_node["name"] == "tokenizer_deserialization_guard" and set((g[0], g[1]) for g in x.guards) <= eg]
+            last = max(same_path, key=lambda x: x.order) if same_path else None
+            lv = as_term(last.val) if last is not None else None
+            if lv is not None and lv.op == "lit:true":
+                res.ok()
+                res.sample({"setter": key, "guard": "tokenizer_deserialization_guard = true on the same path"})
+            else:
+                res.violate("%s : function-without-guard" % key, "a tokenizer function is installed but `tokenizer_deserialization_guard` is %s on that path: after a round trip the function is gone, the guard does not fire and the default regex is used silently" % ("left `%s`" % (lv.name if lv is not None else "?") if last is not None else "never set"), fn_loc(f, e.node["ln"]))
+    if n_set == 0:
+        res.missing_anchor("the setter that installs Tokenizer::Function in CountVectorizerParams")
+    return res.finish(4)
 
 
 def rules(tier):
